@@ -3,14 +3,14 @@ import os, subprocess, sys
 from vf import Query, VERIF, REPO
 from common import R_ASSUME
 
-OPS = ['VECTOR_REF', 'VECTOR_SET', 'VECTOR_LENGTH', 'BYTES_REF', 'BYTES_SET', 'BYTES_LENGTH', 'STRING_REF', 'STRING_LENGTH',
+OPS = ['SLOTN_REF', 'SLOTN_SET', 'MAKE_VECTOR', 'VECTOR_REF', 'VECTOR_SET', 'VECTOR_LENGTH', 'BYTES_REF', 'BYTES_SET', 'BYTES_LENGTH', 'STRING_REF', 'STRING_LENGTH',
        'STRING_CURSOR_NEXT', 'STRING_CURSOR_PREV', 'STRING_CURSOR_END', 'CAR', 'CDR', 'SET_CAR', 'SET_CDR', 'CHAR2INT', 'INT2CHAR',
        'ADD', 'SUB', 'MUL', 'QUOTIENT', 'REMAINDER', 'LT', 'LE', 'EQN']
 UNITS = ['work:vm_slices.c', 'kit:kitfull.c', 'repo:bignum.c', 'repo:eval.c', 'kit:env.c', 'kit:exc_models.c', 'kit:libc_models.c']
 UD = {'KIT_REAL_SEXP': 1}
 EXC = ['sexp_alloc_tagged_aux', 'sexp_type_exception', 'sexp_xtype_exception', 'sexp_range_exception', 'sexp_user_exception', 'sexp_user_exception_ls']
 ARITH = ['sexp_add', 'sexp_sub', 'sexp_mul', 'sexp_quotient', 'sexp_remainder', 'sexp_compare']
-K = {'none': 0, 'vector': 1, 'bytes': 2, 'string': 3, 'pair': 4, 'fixnum': 5, 'cursor': 6, 'char': 7, 'false': 8, 'immvector': 9, 'flonum': 10, 'octet': 11, 'fixc': 12}
+K = {'none': 0, 'vector': 1, 'bytes': 2, 'string': 3, 'pair': 4, 'fixnum': 5, 'cursor': 6, 'char': 7, 'false': 8, 'immvector': 9, 'flonum': 10, 'octet': 11, 'fixc': 12, 'rectype': 13, 'record': 14, 'otherrec': 15, 'smallnat': 16}
 FUNCTIONS = ['sexp_apply: case SEXP_OP_' + o for o in OPS] + ['sexp_string_utf8_ref', 'sexp_utf8_initial_byte_count', 'sexp_string_utf8_prev', 'sexp_fixnum_to_bignum']
 
 
@@ -51,6 +51,10 @@ def queries(tier):
         q(nm, opc, 'pair', 'flonum'); q(nm, opc, 'string', 'flonum')
     q('CHAR2INT', 14, 'char'); q('CHAR2INT', 14, 'fixnum'); q('CHAR2INT', 14, 'string')
     q('INT2CHAR', 15, 'fixnum'); q('INT2CHAR', 15, 'char')
+    # records (define-record-type accessors): type given at run time, free field index
+    q('SLOTN_REF', 16, 'rectype', 'record', 'fixnum'); q('SLOTN_REF', 16, 'rectype', 'otherrec', 'fixnum'); q('SLOTN_REF', 16, 'rectype', 'pair', 'fixnum'); q('SLOTN_REF', 16, 'vector', 'record', 'fixnum')
+    q('SLOTN_SET', 17, 'rectype', 'record', 'fixnum'); q('SLOTN_SET', 17, 'rectype', 'otherrec', 'fixnum')
+    q('MAKE_VECTOR', 18, 'smallnat', 'flonum'); q('MAKE_VECTOR', 18, 'false', 'flonum')
     for opc, nm in ((20, 'ADD'), (21, 'SUB'), (25, 'LT'), (26, 'LE'), (27, 'EQN')):
         q(nm, opc, 'fixnum', 'fixnum', arith=True)
     # division: free dividend, divisor from the D-const set (a free 62-bit divisor does not decide: R7)
